@@ -1,7 +1,8 @@
 #!/usr/bin/env python3
 """Regression over the stored behaviour-preserving refactorings: for every harmless/<name>/patch.diff
 make a scratch worktree of /repo HEAD (outside /repo and /verif), apply the patch, run ALL checks
-against it (KIO_REPO) and require exit 0 from each (exit 1 = false alarm, exit 2 = engine too narrow).
+against it (KIO_REPO); exit 1 or 3 from any check is a false alarm / crash and fails the run, exit 2 (undecided: the
+engine is too narrow for that code) is reported but is not an alarm.
   tools/harmless_regress.py [-j N] [name ...]"""
 import os
 import subprocess
@@ -40,9 +41,13 @@ def main():
                 continue
             with ThreadPoolExecutor(jobs) as ex:
                 res = list(ex.map(lambda c: (c, sh(f"./vf check {c}", cwd=VERIF, env=dict(os.environ, KIO_REPO=wt))[0]), ALL))
-            wrong = [f"{c}={rc}" for c, rc in res if rc != 0]
-            print(f"{name}: {'all 18 checks exit 0' if not wrong else 'NOT QUIET: ' + ' '.join(wrong)}", flush=True)
-            bad += bool(wrong)
+            alarms = [f"{c}={rc}" for c, rc in res if rc not in (0, 2)]
+            undecided = [c for c, rc in res if rc == 2]
+            msg = "all 18 checks exit 0" if not alarms and not undecided else \
+                ("FALSE ALARM / CRASH: " + " ".join(alarms) if alarms else "no alarm") + \
+                (f"; undecided (exit 2, engine too narrow): {' '.join(undecided)}" if undecided else "")
+            print(f"{name}: {msg}", flush=True)
+            bad += bool(alarms)
         finally:
             sh(f"git -C /repo worktree remove --force {wt}")
             sh(f"rm -rf {tmp}")
